@@ -118,6 +118,9 @@ pub enum Op {
     DowngradeOwn(usize),
     /// mark an object: cloning its value (make_mut) does not copy the handles it stores
     Shallow(ObjId),
+    /// mark an object: its destructor releases its stored handles through
+    /// Rc::into_raw + Rc::decrement_strong_count instead of dropping them
+    RawRelease(ObjId),
     /// inside a destructor: move own stored handle k out to a program slot (it escapes the teardown)
     EscapeOwn(usize),
     /// clone a program-held handle whose target is already destroyed, then print AFTER-CLONE (C16)
@@ -201,6 +204,7 @@ impl fmt::Display for Op {
             Op::DropDead(k) => write!(f, "dropdead:{}", k),
             Op::DowngradeOwn(k) => write!(f, "downgradeown:{}", k),
             Op::Shallow(o) => write!(f, "shallow:{}", o),
+            Op::RawRelease(o) => write!(f, "rawrelease:{}", o),
             Op::EscapeOwn(k) => write!(f, "escapeown:{}", k),
             Op::CloneLate(s) => write!(f, "clonelate:{}", fmt_slot(*s)),
             Op::Nop => write!(f, "nop"),
@@ -273,6 +277,7 @@ pub fn parse_op(s: &str) -> Option<Op> {
         "dropdead" => Op::DropDead(u(1)?),
         "downgradeown" => Op::DowngradeOwn(u(1)?),
         "shallow" => Op::Shallow(o(1)?),
+        "rawrelease" => Op::RawRelease(o(1)?),
         "escapeown" => Op::EscapeOwn(u(1)?),
         "clonelate" => Op::CloneLate(u(1)?),
         "nop" => Op::Nop,
